@@ -13,6 +13,15 @@ Theorem C19_reach_sound : forall g es fuel x,
 Proof. exact reach_sound. Qed.
 Print Assumptions C19_reach_sound.
 
+(* the same with the fuel bound in its sharpest form: U any list holding the
+   entries and all edge targets — for the duplicate-free list of nodes its length
+   is the number of nodes *)
+Theorem C19_reach_sound_nodes : forall g es U fuel x,
+  incl es U -> (forall a b, In (a, b) g -> In b U) -> length U <= fuel ->
+  path g es x -> In x (reachable g es fuel).
+Proof. exact reach_sound_nodes. Qed.
+Print Assumptions C19_reach_sound_nodes.
+
 Theorem C19_reach_complete : forall g es fuel x, In x (reachable g es fuel) -> path g es x.
 Proof. exact reach_complete. Qed.
 Print Assumptions C19_reach_complete.
